@@ -15,10 +15,25 @@ from harness.targets import Dflt, Tok
 # protocol <-> python values
 
 
+# opaque value numbers from SPECIAL_BASE on stand for Python values that code is tempted to treat
+# as "missing": None and the falsy literals (to the model they are values like any other)
+SPECIAL_BASE = 1000000
+SPECIALS = [None, 0, '', False, (), 0.0]
+
+
+def _special_index(x):
+  for i, s_ in enumerate(SPECIALS):
+    if type(x) is type(s_) and x == s_:
+      return i
+  return None
+
+
 def to_py(v):
   if v == 'nov':
     return fdl.NO_VALUE
   if 'v' in v:
+    if v['v'] >= SPECIAL_BASE:
+      return SPECIALS[v['v'] - SPECIAL_BASE]
     return Tok(v['v'])
   if 'd' in v:
     return Dflt(v['d'])
@@ -33,6 +48,8 @@ def to_proto(x):
     return 'nov'
   if isinstance(x, Tok):
     return {'v': x.n}
+  if _special_index(x) is not None:
+    return {'v': SPECIAL_BASE + _special_index(x)}
   if isinstance(x, Dflt):
     return {'d': x.name}
   if callable(x) and not isinstance(x, fdl.Buildable):
@@ -125,6 +142,8 @@ class Fresh:
       # a value-less TaggedValue in a positional slot leaves a hole in *args (entries after it
       # become unreachable); only named parameters get value-less TaggedValues
       return {'tv': tags, 'in': next(self.c) if (positional or r.random() < 0.7) else None}
+    if x < 0.2:
+      return {'v': SPECIAL_BASE + r.randrange(len(SPECIALS))}
     return {'v': next(self.c)}
 
 
